@@ -115,7 +115,13 @@ func (p *preprocessor) worker(workerID string) {
 		case <-controlChans.PauseCh:
 			logger.Debug("received pause event")
 			verifhook.At("pause.ack", "pre."+workerID)
-			controlChans.ResumeCh <- struct{}{}
+			// Wait for the resume, but don't let a pause hold back the shutdown
+			select {
+			case controlChans.ResumeCh <- struct{}{}:
+			case <-p.ctx.Done():
+				logger.Debug("shutting down while paused")
+				return
+			}
 			verifhook.At("pause.resumed", "pre."+workerID)
 			logger.Debug("received resume event")
 		case seed, ok := <-p.inputCh:
